@@ -13,9 +13,9 @@ import (
 	"github.com/google/gce-tcb-verifier/endorse"
 	epb "github.com/google/gce-tcb-verifier/proto/endorsement"
 	rpb "github.com/google/gce-tcb-verifier/proto/releases"
-	sgpb "github.com/google/go-sev-guest/proto/sevsnp"
 	"github.com/google/gce-tcb-verifier/sev"
 	"github.com/google/gce-tcb-verifier/testing/nonprod/localnonvcs"
+	sgpb "github.com/google/go-sev-guest/proto/sevsnp"
 	"google.golang.org/protobuf/encoding/prototext"
 	"google.golang.org/protobuf/proto"
 	"google.golang.org/protobuf/types/known/timestamppb"
